@@ -6,9 +6,11 @@ Counters and construction histories (C12).
   the same order the replacement is strictly monotone per counter (`Ren.Mono`).
 * `CExpr.cmpT`: the skeleton of `cmp_expr` (ufl/sorting.py) over expressions with structured terminals, with the
   comparison of two terminals of one type as a parameter:
-    - `termCmpR` = the comparators of the current tree (through `Expr.cmpTerm`: `_cmp_terminal_by_repr` compares
-      the decimal numerals inside `repr` as strings);  `cmpR a b = Expr.cmp a.toExpr b.toExpr` (proved in Props/C12)
-    - `termCmpN` = comparators that read the numbers as numbers (the proposed repair, fix_C12_1.diff).
+    - `termCmpR` = the repr comparators (through `Expr.cmpTerm OrdCfg.byRepr`: `_cmp_terminal_by_repr` compares
+      the decimal numerals inside `repr` as strings);  `cmpR a b = Expr.cmpC .byRepr a.toExpr b.toExpr` (proved in Props/C12)
+    - `termCmpN` = comparators that read the numbers as numbers (the repair fix_C12_1.diff);
+      `cmpN a b = Expr.cmpC .numeric a.toExpr b.toExpr` for sane class names (proved in Props/C12).
+  Which of the two the tree under test has is regenerated (Gen/OrderVariant.lean, `Expr.OrdCfg.live`).
 * `Prog`/`run`: a construction history — object creations drawing from the counters and constructor calls; the
   constructors that consult the ordering (`Sum`, `Product`) sort their operands with `sort2With`.
 Core Lean only.
@@ -79,10 +81,10 @@ def cmpTL (tc : CExpr → CExpr → Ordering) : List CExpr → List CExpr → Or
   | _, _ => .eq
 end
 
-/-- the terminal comparators of the current tree -/
-def termCmpR (a b : CExpr) : Ordering := Expr.cmpTerm Expr.cmpMI a.toExpr b.toExpr
+/-- the terminal comparators of the tree before fix_C12_1.diff (`OrdCfg.byRepr`) -/
+def termCmpR (a b : CExpr) : Ordering := Expr.cmpTerm Expr.OrdCfg.byRepr Expr.cmpMI a.toExpr b.toExpr
 
-/-- `cmp_expr` of the current tree -/
+/-- `cmp_expr` with the repr comparators -/
 def cmpR : CExpr → CExpr → Ordering := cmpT termCmpR
 
 def kindIx : CTerm → Nat
@@ -103,6 +105,10 @@ def termCmpN : CExpr → CExpr → Ordering
   | .term (.const c m sh), .term (.const c' m' sh') => thn (cmpMesh m m') (thn (cmpNats sh sh') (compare c c'))
   | .term (.geo _ m _), .term (.geo _ m' _) => cmpMesh m m'
   | .term (.plain _ k _), .term (.plain _ k' _) => compare k k'
+  -- a float literal whose repr is a rounded decimal travels as a counter-free terminal carrying that repr (harness/c12lib.py);
+  -- against an exact float literal it is compared by repr, like any two FloatValues
+  | .term (.plain _ k _), .real n d => compare k (Expr.reprOf (.real n d))
+  | .real n d, .term (.plain _ k _) => compare (Expr.reprOf (.real n d)) k
   | .term a, .term b => compare (kindIx a) (kindIx b)
   | .zero sh f, .zero sh' f' => thn (cmpNats sh sh') (cmpNats (f.map (·.2)) (f'.map (·.2)))
   | .int v, .int w => compare (Expr.reprOf (.int v)) (Expr.reprOf (.int w))
